@@ -251,7 +251,10 @@ Definition assemble (fixed : bool) (st : tabular) (ord : list str)
 
 (* ---------- BaseInput.combine_dataframe ---------- *)
 (* filter(lambda e: bool(e) and e != "n/a", ...) *)
-Definition keep_part (e : str) : bool := negb (is_empty e) && negb (str_eqb e ch_na).
+(* since fix commit 8227060: bool(e.strip(" ")) and e != "n/a" -- empty texts, texts holding
+   only blanks (U+0020) and the text "n/a" are skipped.  (Before that commit: bool(e) and
+   e != "n/a"; recorded as [keep_part_pre] in Proofs/BlankProofs.v.) *)
+Definition keep_part (e : str) : bool := negb (is_blank e) && negb (str_eqb e ch_na).
 
 Definition row_cells (cols : list (str * list str)) (i : nat) : list str :=
   map (fun c => nth i (snd c) []) cols.
